@@ -238,6 +238,43 @@ def variant_source(kind, source):
         for fn in [n for n in ast.walk(tree) if isinstance(n, ast.FunctionDef)]:
             fn.body = fix(fn.body)
         return ast.unparse(ast.fix_missing_locations(tree))
+    if kind == "alias":
+        # the most used, never re-assigned `self.<attr>` of a method gets a local alias bound at the top of the method
+        for cls_ in [n for n in ast.walk(tree) if isinstance(n, ast.ClassDef)]:
+            for fn in [n for n in cls_.body if isinstance(n, ast.FunctionDef)]:
+                if not fn.args.args or fn.args.args[0].arg != "self" or fn.name in ("__init__", "__getstate__", "__setstate__"):
+                    continue
+                if any(isinstance(d, ast.Name) and d.id in ("property", "staticmethod", "classmethod") for d in fn.decorator_list):
+                    continue
+                uses, stored = {}, set()
+                for x in ast.walk(fn):
+                    if isinstance(x, ast.Attribute) and isinstance(x.value, ast.Name) and x.value.id == "self":
+                        if isinstance(x.ctx, ast.Load):
+                            uses[x.attr] = uses.get(x.attr, 0) + 1
+                        else:
+                            stored.add(x.attr)
+                # only attributes that hold objects which the method merely calls into / reads through (x.attr.something)
+                through = {}
+                for x in ast.walk(fn):
+                    if isinstance(x, ast.Attribute) and isinstance(x.value, ast.Attribute) and isinstance(x.value.value, ast.Name) and x.value.value.id == "self":
+                        through[x.value.attr] = through.get(x.value.attr, 0) + 1
+                cands = [a for a, c in through.items() if c >= 2 and a not in stored and through[a] == uses.get(a, 0)]
+                if not cands or any(isinstance(x, (ast.Lambda, ast.FunctionDef)) and x is not fn for x in ast.walk(fn)):
+                    continue
+                a = sorted(cands, key=lambda k: (-through[k], k))[0]
+                nm = f"_al_{a}"
+
+                class R(ast.NodeTransformer):
+                    def visit_Attribute(self, n_):
+                        self.generic_visit(n_)
+                        if isinstance(n_.value, ast.Name) and n_.value.id == "self" and n_.attr == a and isinstance(n_.ctx, ast.Load):
+                            return ast.Name(id=nm, ctx=ast.Load())
+                        return n_
+
+                fn.body = [R().visit(st) for st in fn.body]
+                i = 1 if (fn.body and isinstance(fn.body[0], ast.Expr) and isinstance(fn.body[0].value, ast.Constant)) else 0
+                fn.body.insert(i, ast.Assign(targets=[ast.Name(id=nm, ctx=ast.Store())], value=ast.Attribute(value=ast.Name(id="self", ctx=ast.Load()), attr=a, ctx=ast.Load())))
+        return ast.unparse(ast.fix_missing_locations(tree))
     if kind == "numpy":
         has = any(isinstance(n, ast.Import) and any(a.name == "numpy" and a.asname == "np" for a in n.names) for n in ast.walk(tree))
         if not has:
